@@ -41,13 +41,13 @@ CHUNK = 1
 def bounds(tier, seed):
     if tier == "thorough":
         return {
-            "capacity": [10, 24, 60, 100],
-            "soc": [0, 0.25, 0.5, 0.79, 0.7999, 0.8, 0.8001, 0.9, 0.949, 0.95, 0.951, 0.999, 1],
+            "capacity": [8, 10, 24, 40, 60, 100],
+            "soc": [0, 0.1, 0.25, 0.5, 0.6, 0.79, 0.7999, 0.8, 0.8001, 0.85, 0.9, 0.949, 0.95, 0.951, 0.97, 0.999, 1],
             "pmax": [3.3, 6.656, 7, 11.5],
             "ts": [0, 0.5, 0.8, 0.95],
-            "pilot": [0, 0.5, 1, 6, 8, 16, 24, 32, 48, 80],
+            "pilot": [0, 0.5, 1, 2, 6, 8, 12, 16, 20, 24, 32, 40, 48, 80],
             "V": [120, 208, 240],
-            "T": [1, 5, 15, 60, 240],
+            "T": [1, 2, 5, 7.5, 8, 15, 30, 45, 60, 90, 240, 480],
             "chain": 2,
         }
     return {
